@@ -112,25 +112,30 @@ Proof.
 Qed.
 Print Assumptions C17_address_binding.
 
-(* ---- refuted: the signature is not bound to the public key for BLS and ECDSA ------------------------ *)
+(* ---- observations (NOT violations of C17): key substitution for BLS and ECDSA --------------------------
+   C17 fixes the signer: "no alternative encoding of a valid signature or public key verifies for the same
+   message", addresses "are determined by [the] public key".  The two facts below produce a DIFFERENT public
+   key (hence a different actor address, i.e. another account's transaction), not another encoding of the same
+   signature or key, so they are outside the property; they are recorded because they were met while writing
+   the exponent-level models.  The driver does not generate them as violations. *)
 
 (* BLS verification in the exponent is x*h = s (mod r) for pk = x*g1, H(m) = h*g2, sig = s*g2.  From a valid
    (pk, sig) anybody obtains the valid pair (-pk, -sig) (more generally (c*pk, c*sig)) for the SAME message:
    another actor address and another transaction id, without the signer's key.  Reproduced on the real
    code by the driver (mutation keysub-negate-both: flip the sign bit 0x20 of both compressed points). *)
-Theorem C17_bls_key_substitution_refuted : exists x h s x' s' : Z,
+Theorem C17_bls_key_substitution_observed : exists x h s x' s' : Z,
   (0 < x < bls_r /\ 0 < x' < bls_r /\ x' <> x /\ x' = bls_r - x /\ s' = bls_r - s)%Z /\
   bls_exp_verify x h s = true /\ bls_exp_verify x' h s' = true.
 Proof.
   exists 5%Z, 7%Z, 35%Z, (bls_r - 5)%Z, (bls_r - 35)%Z. vm_compute. intuition congruence.
 Qed.
-Print Assumptions C17_bls_key_substitution_refuted.
+Print Assumptions C17_bls_key_substitution_observed.
 
 (* ECDSA: the verifier recomputes R = k*G with s*k = z + r*d and compares x(R) with r; since
    x(k*G) = x((n-k)*G), the key d' = (-s*k - z)/r makes the SAME low-S (r, s) valid for the same hash z
    under a different public key, computable from the public data only (Q' = r^-1 (s*(-R) - z*G)).
    Reproduced on the real code by the driver (mutation keysub-same-sig). *)
-Theorem C17_ecdsa_key_substitution_refuted : exists d d' z r s k : Z,
+Theorem C17_ecdsa_key_substitution_observed : exists d d' z r s k : Z,
   (d <> d' /\ 0 < s < p256_n)%Z /\ normalized_s s = true /\
   forall xcoord : Z -> Z, xcoord k = r -> xcoord (p256_n - k)%Z = r ->
     ecdsa_exp_verify xcoord d z r s k = true /\ ecdsa_exp_verify xcoord d' z r s (p256_n - k) = true.
@@ -143,7 +148,7 @@ Proof.
   - intros xcoord H1 H2. unfold ecdsa_exp_verify. rewrite H1, H2, Z.eqb_refl, !andb_true_r.
     split; vm_compute; reflexivity.
 Qed.
-Print Assumptions C17_ecdsa_key_substitution_refuted.
+Print Assumptions C17_ecdsa_key_substitution_observed.
 
 (* ---- non-vacuity ------------------------------------------------------------------------------------ *)
 Local Open Scope N_scope.
